@@ -206,7 +206,7 @@ def run_driver(lines: list[dict], timeout=1800, chunk=None) -> list[dict]:
 
 
 def run_driver_parallel(lines: list[dict], nproc: int = NCPU, timeout=1800) -> list[dict]:
-    if len(lines) < 2000 or nproc <= 1:
+    if len(lines) < 64 or nproc <= 1:
         return run_driver(lines, timeout)
     from concurrent.futures import ThreadPoolExecutor
 
